@@ -41,6 +41,12 @@ RichGen(d, j) ==
   ELSE LET k == RichOrder[((j - 1) \div 4) + 1]
            v == (j - 1) % 4
        IN RichGen([d EXCEPT ![k] = Append(@, Tmpl(k, v, IdxOf(j), Str(4), Str(5), IdxSeq(d.f)))], j + 1)
+RECURSIVE RichGen2(_, _)
+RichGen2(d, j) ==
+  IF j > 24 THEN d
+  ELSE LET k == RichOrder[((j - 1) \div 4) + 1]
+           v == (j - 1) % 4
+       IN RichGen2([d EXCEPT ![k] = Append(@, Tmpl(k, v, IdxOf(j), Str(6), Str(8), IdxSeq(d.f)))], j + 1)
 RichDb0 == RichGen([id |-> FileId, lib |-> <<114, 105, 99, 104>>, hash |-> <<113, 120, 54, 104>>, mod |-> <<109, 111, 100>>]
                    @@ EmptyTables, 1)
 \* ... plus one record per kind with EVERY flag bit set, so that each bit of QF is told apart from its neighbours
@@ -54,6 +60,8 @@ RichDb ==
                   [AllBits("t", 28, 11184810) EXCEPT !.asize = 1]),
      !.m = Append(@, AllBits("m", 29, 7)),
      !.e = Append(@, AllBits("e", 30, 1023))]
+\* a second database with every record pattern and other names (no type name shared with RichDb)
+RichDb2 == RichGen2([id |-> FileId + 1, lib |-> <<114, 50>>, hash |-> <<114, 50, 114, 50>>, mod |-> <<109, 50>>] @@ EmptyTables, 1)
 RichScenarios == {[name |-> "rich", gen |-> TRUE, files |-> <<WriteDb(BaseDb, 3), WriteDb(RichDb, 3)>>],
                   [name |-> "empty", gen |-> TRUE, files |-> <<>>]}
 
@@ -76,11 +84,6 @@ MCStageInputs ==
      f1 \in {<<>>, <<WriteDb(Stage1Db, 3)>>}, fn1 \in LookupFns, fn2 \in LookupFns}
 
 ---------------------------------------------------------------------------
-NameArgs(q, d) ==
-  LET stored == {RecAt(q, d.k, i)[d.f] : i \in Idxs(q[d.k])}
-  IN stored \cup {Append(nm, 120) : nm \in stored} \cup {SubSeq(nm, 1, Len(nm) - 1) : nm \in stored \ {<<>>}}
-     \cup {<<>>, <<122, 122>>, <<32>>}
-
 DbRes(q) ==
   [x \in 1..Len(QF) |->
      LET d == QF[x] IN
@@ -96,6 +99,41 @@ DbRes(q) ==
        [] d.op = "uniq" ->      \* no module with a unique-name table is registered in a database scenario
             {[name |-> nm, ok |-> {0}] : nm \in NameArgs(q, d) \cup {<<113>>, <<113, 120, 54>>, <<113, 120, 54, 104>>}}]
 
+\* ---- first-query histories: every function of the interface as the first query after a request, twice
+ArgOf(q, d) ==    \* an argument that reaches the most recently loaded record of the function's table
+  LET last(k) == IF q[k] = <<>> THEN 1 ELSE q[k][Len(q[k])].idx IN
+  CASE d.op \in ByIndexOps -> [i |-> last(IF d.op = "chain" THEN "s" ELSE d.k), n |-> 0, nm |-> <<>>]
+    [] d.op \in ByPosOps -> [i |-> last(d.k), n |-> 0, nm |-> <<>>]
+    [] d.op = "gat" -> [i |-> IF ListOf(q, d.k) = <<>> THEN 0 ELSE Len(ListOf(q, d.k)) - 1, n |-> 0, nm |-> <<>>]
+    [] d.op \in {"lookup", "uniq"} -> [i |-> 0, n |-> 0, nm |-> RecAt(q, d.k, last(d.k))[d.f]]
+    [] OTHER -> [i |-> 0, n |-> 0, nm |-> <<>>]
+AnswerOf(q, d, arg) ==    \* the set of acceptable answers
+  CASE d.op = "lookup" -> IF Bearers(q, d, arg.nm) = {} THEN {0} ELSE Bearers(q, d, arg.nm)
+    [] d.op = "uniq" -> {0}
+    [] OTHER -> {Query(q, d, arg.i, arg.n)}
+RichFile1 == WriteDb(RichDb, 3)
+RichFile2 == WriteDb(RichDb2, 3)
+MCFirstInputs ==
+  {[name |-> "first", files1 |-> fs[1], files2 |-> fs[2], fn |-> QF[x].fn] :
+     x \in 1..Len(QF), fs \in {<<<<RichFile1>>, <<RichFile2>>>>, <<<<RichFile2>>, <<RichFile1>>>>}}
+\* the four loaded states of these histories, computed once
+QF1 == LoadAll(EmptyQ, <<RichFile1>>)
+QF12 == LoadAll(EmptyQ, <<RichFile1, RichFile2>>)
+QF2 == LoadAll(EmptyQ, <<RichFile2>>)
+QF21 == LoadAll(EmptyQ, <<RichFile2, RichFile1>>)
+FirstRec ==
+  LET d == QFBy(inp.fn)
+      n1 == Len(inp.files1)
+      qa == IF inp.files1 = <<RichFile1>> THEN QF1 ELSE QF2       \* what the first query must see (all of files1)
+      qb == IF inp.files1 = <<RichFile1>> THEN QF12 ELSE QF21   \* (= FirstQ(inp, number of files requested))
+      a1 == ArgOf(qa, d)
+      a2 == ArgOf(qb, d)
+  IN [task |-> task, fn |-> inp.fn, op |-> d.op, r |-> d.r, files1 |-> inp.files1, files2 |-> inp.files2,
+      arg1 |-> a1, ok1 |-> AnswerOf(qa, d, a1), arg2 |-> a2, ok2 |-> AnswerOf(qb, d, a2),
+      cnt1 |-> IF d.op = "gcount" THEN Len(ListOf(qa, d.k)) ELSE 0 - 1,
+      cnt2 |-> IF d.op = "gcount" THEN Len(ListOf(qb, d.k)) ELSE 0 - 1,
+      acc |-> IF d.op = "gcount" THEN QF[CHOOSE y \in 1..Len(QF) : QF[y].op = "gat" /\ QF[y].k = d.k].fn ELSE ""]
+
 StageRec ==
   LET q1 == LoadAll(EmptyQ, inp.files1)
       q == LoadAll(EmptyQ, StageFiles(inp))
@@ -109,6 +147,7 @@ StageRec ==
 
 Rec ==
   CASE task = "stage" -> StageRec
+    [] task = "first" -> FirstRec
     [] task = "db" -> LET q == QOf(inp) IN
          [task |-> task, name |-> inp.name, files |-> IF inp.gen THEN inp.files ELSE <<>>,
           next |-> q.next, nrec |-> NumRecs(q), idx |-> IdxArgs(q), res |-> DbRes(q)]
